@@ -202,8 +202,8 @@ package ucfg
 //@ ensures typeof(r) == typeof(self)
 
 //@ func (*fields).append
-//@ props C01 C10 C15 C14
-//@ tagged-only C14
+//@ props C01 C10 C15 C14 C11
+//@ tagged-only C14 C11
 //@ requires f != nil
 //@ requires len(f.a) + len(a) < 9223372036854775807
 //@ requires base(a) != base(f.a)
@@ -226,8 +226,8 @@ package ucfg
 //@ loop 1 decreases count - i
 
 //@ func mergeConfigAppendArr
-//@ props C01 C10 C15
-//@ tagged-only C15
+//@ props C01 C10 C15 C11
+//@ tagged-only C15 C11
 //@ requires to != nil && to.fields != nil && from != nil && from.fields != nil
 //@ requires base(from.fields.a) != base(to.fields.a)
 //@ requires len(to.fields.a) + len(from.fields.a) < 9223372036854775807
@@ -241,8 +241,8 @@ package ucfg
 //@ ensures [dict] to.fields.d == old(to.fields.d)
 
 //@ func mergeConfigPrependArr
-//@ props C01 C10 C15 C14
-//@ tagged-only C15 C14
+//@ props C01 C10 C15 C14 C11
+//@ tagged-only C15 C14 C11
 //@ requires to != nil && to.fields != nil && from != nil && from.fields != nil
 //@ requires len(to.fields.a) + len(from.fields.a) < 9223372036854775807
 //@ requires forall j int :: 0 <= j && j < len(from.fields.a) ==> from.fields.a[j] != nil
@@ -258,8 +258,8 @@ package ucfg
 //@ ensures [dict] to.fields.d == old(to.fields.d)
 
 //@ func mergeConfigReplaceArr
-//@ props C01 C10 C15
-//@ tagged-only C15
+//@ props C01 C10 C15 C11
+//@ tagged-only C15 C11
 //@ requires to != nil && to.fields != nil && from != nil && from.fields != nil
 //@ requires len(from.fields.a) < 9223372036854775807
 //@ requires forall j int :: 0 <= j && j < len(from.fields.a) ==> from.fields.a[j] != nil
@@ -312,8 +312,8 @@ package ucfg
 //@ ensures [recurse] old != nil && cfgEval(old) != nil && cfgEval(v) != nil && err == nil ==> r == subval(cfgEval(old)) && mergedInto(cfgEval(old), cfgEval(v), opts)
 
 //@ func mergeConfigMergeArr
-//@ props C01 C15
-//@ tagged-only C15
+//@ props C01 C15 C11
+//@ tagged-only C15 C11
 //@ requires opts != nil
 //@ requires to != nil && to.fields != nil && from != nil && from.fields != nil
 //@ requires base(from.fields.a) != base(to.fields.a)
@@ -378,6 +378,7 @@ package ucfg
 //@ pure
 //@ ensures [sound] forall j int :: 0 <= j && j < len(result) ==> has(c.fields.d, result[j])
 //@ loop 1 invariant forall j int :: 0 <= j && j < len(names) ==> has(c.fields.d, names[j])
+//@ loop 1 invariant names == nil || fresh(base(names))
 //@ loop 1 invariant forall k string :: visited(k) ==> has(c.fields.d, k)
 
 //@ ghost func splitLen(s string, sep string) int
@@ -390,12 +391,14 @@ package ucfg
 //@ ensures [key !unproved] pathKey(result) == in
 //@ ensures [nonempty] len(result.fields) >= 1
 //@ ensures [sep] result.sep == sep
+//@ ensures [fresh_fields] fresh(base(result.fields))
 //@ ensures [single] sep == "" ==> len(result.fields) == 1
 //@ ensures [single_field] sep == "" ==> isFieldOf(result.fields[0], in, maxIdx, enableNumKeys)
 //@ ensures [count] sep != "" && !allowEscapePath ==> len(result.fields) == splitLen(in, sep)
 //@ ensures [multi_field] sep != "" && !allowEscapePath ==> forall j int :: 0 <= j && j < len(result.fields) ==> isFieldOf(result.fields[j], splitAt(in, sep, j), maxIdx, enableNumKeys && splitLen(in, sep) <= 1)
 //@ ensures [nonnil] forall j int :: 0 <= j && j < len(result.fields) ==> result.fields[j] != nil
 //@ loop 1 invariant len(fields) == rangeindex + 1 && -1 <= rangeindex && rangeindex < len(elems)
+//@ loop 1 invariant fresh(base(fields))
 //@ loop 1 invariant len(elems) == splitLen(in, sep) && len(elems) >= 1
 //@ loop 1 invariant enableNumKeys == (entry(enableNumKeys) && len(elems) <= 1)
 //@ loop 1 invariant forall j int :: 0 <= j && j < len(elems) ==> elems[j] == splitAt(in, sep, j)
@@ -409,6 +412,7 @@ package ucfg
 //@ ensures [naming !unproved] result == pathFor(in, opts)
 //@ ensures [key] pathKey(result) == in
 //@ ensures [nonempty] len(result.fields) >= 1
+//@ ensures [fresh_fields] fresh(base(result.fields))
 //@ ensures [nonnil] forall j int :: 0 <= j && j < len(result.fields) ==> result.fields[j] != nil
 //@ ensures [sep] result.sep == opts.pathSep
 //@ ensures [single_field] opts.pathSep == "" ==> len(result.fields) == 1 && isFieldOf(result.fields[0], in, opts.maxIdx, opts.enableNumKeys)
@@ -1417,9 +1421,9 @@ package ucfg
 
 //@ func (*expansionSingle).eval :: e, cfg, opts -> s, err
 //@ props C02 C08 C11
-//@ at-call iface:varEvaler.eval requires opts != nil && opts.activeFields != nil && forall k string :: !has(opts.activeFields.fields, k)
-//@ at-call (*reference).eval requires opts != nil && opts.activeFields != nil && forall k string :: !has(opts.activeFields.fields, k)
-//@ at-call (*reference).resolve requires opts != nil && opts.activeFields != nil && forall k string :: !has(opts.activeFields.fields, k)
+//@ at-call iface:varEvaler.eval requires opts != nil && opts.activeFields != nil && opts.activeFields.parent == atentry(opts.activeFields) && forall k string :: !has(opts.activeFields.fields, k)
+//@ at-call (*reference).eval requires opts != nil && opts.activeFields != nil && opts.activeFields.parent == atentry(opts.activeFields) && forall k string :: !has(opts.activeFields.fields, k)
+//@ at-call (*reference).resolve requires opts != nil && opts.activeFields != nil && opts.activeFields.parent == atentry(opts.activeFields) && forall k string :: !has(opts.activeFields.fields, k)
 //@ ensures [scope @C08] opts.activeFields == old(opts.activeFields)
 //@ requires e != nil && opts != nil && e.evaler != nil && !inTree(opts, e) && !inTree(opts, opts)
 //@ modifies tree(opts), opts.activeFields
@@ -1428,9 +1432,9 @@ package ucfg
 
 //@ func (*expansionDefault).eval :: e, cfg, opts -> s, err
 //@ props C02 C08 C11
-//@ at-call iface:varEvaler.eval requires opts != nil && opts.activeFields != nil && forall k string :: !has(opts.activeFields.fields, k)
-//@ at-call (*reference).eval requires opts != nil && opts.activeFields != nil && forall k string :: !has(opts.activeFields.fields, k)
-//@ at-call (*reference).resolve requires opts != nil && opts.activeFields != nil && forall k string :: !has(opts.activeFields.fields, k)
+//@ at-call iface:varEvaler.eval requires opts != nil && opts.activeFields != nil && opts.activeFields.parent == atentry(opts.activeFields) && forall k string :: !has(opts.activeFields.fields, k)
+//@ at-call (*reference).eval requires opts != nil && opts.activeFields != nil && opts.activeFields.parent == atentry(opts.activeFields) && forall k string :: !has(opts.activeFields.fields, k)
+//@ at-call (*reference).resolve requires opts != nil && opts.activeFields != nil && opts.activeFields.parent == atentry(opts.activeFields) && forall k string :: !has(opts.activeFields.fields, k)
 //@ ensures [scope @C08] opts.activeFields == old(opts.activeFields)
 //@ requires e != nil && opts != nil && e.expansion.left != nil && e.expansion.right != nil && !inTree(opts, e) && !inTree(opts, opts)
 //@ modifies tree(opts), opts.activeFields
@@ -1439,9 +1443,9 @@ package ucfg
 
 //@ func (*expansionAlt).eval :: e, cfg, opts -> s, err
 //@ props C02 C08 C11
-//@ at-call iface:varEvaler.eval requires opts != nil && opts.activeFields != nil && forall k string :: !has(opts.activeFields.fields, k)
-//@ at-call (*reference).eval requires opts != nil && opts.activeFields != nil && forall k string :: !has(opts.activeFields.fields, k)
-//@ at-call (*reference).resolve requires opts != nil && opts.activeFields != nil && forall k string :: !has(opts.activeFields.fields, k)
+//@ at-call iface:varEvaler.eval requires opts != nil && opts.activeFields != nil && opts.activeFields.parent == atentry(opts.activeFields) && forall k string :: !has(opts.activeFields.fields, k)
+//@ at-call (*reference).eval requires opts != nil && opts.activeFields != nil && opts.activeFields.parent == atentry(opts.activeFields) && forall k string :: !has(opts.activeFields.fields, k)
+//@ at-call (*reference).resolve requires opts != nil && opts.activeFields != nil && opts.activeFields.parent == atentry(opts.activeFields) && forall k string :: !has(opts.activeFields.fields, k)
 //@ ensures [scope @C08] opts.activeFields == old(opts.activeFields)
 //@ requires e != nil && opts != nil && e.expansion.left != nil && e.expansion.right != nil && !inTree(opts, e) && !inTree(opts, opts)
 //@ modifies tree(opts), opts.activeFields
@@ -1450,9 +1454,9 @@ package ucfg
 
 //@ func (*expansionErr).eval :: e, cfg, opts -> s, err
 //@ props C02 C08 C11
-//@ at-call iface:varEvaler.eval requires opts != nil && opts.activeFields != nil && forall k string :: !has(opts.activeFields.fields, k)
-//@ at-call (*reference).eval requires opts != nil && opts.activeFields != nil && forall k string :: !has(opts.activeFields.fields, k)
-//@ at-call (*reference).resolve requires opts != nil && opts.activeFields != nil && forall k string :: !has(opts.activeFields.fields, k)
+//@ at-call iface:varEvaler.eval requires opts != nil && opts.activeFields != nil && opts.activeFields.parent == atentry(opts.activeFields) && forall k string :: !has(opts.activeFields.fields, k)
+//@ at-call (*reference).eval requires opts != nil && opts.activeFields != nil && opts.activeFields.parent == atentry(opts.activeFields) && forall k string :: !has(opts.activeFields.fields, k)
+//@ at-call (*reference).resolve requires opts != nil && opts.activeFields != nil && opts.activeFields.parent == atentry(opts.activeFields) && forall k string :: !has(opts.activeFields.fields, k)
 //@ ensures [scope @C08] opts.activeFields == old(opts.activeFields)
 //@ requires e != nil && opts != nil && e.expansion.left != nil && e.expansion.right != nil && !inTree(opts, e) && !inTree(opts, opts)
 //@ modifies tree(opts), opts.activeFields
@@ -1531,8 +1535,8 @@ package ucfg
 //@ norte nil assert
 //@ requires rvKind(to) == 21 && (rvNil(to) ==> rvCanSet(to))
 //@ requires opts != nil && from != nil && from.fields != nil
-//@ at-call reifyValue requires opts.opts != nil && opts.opts.activeFields != nil && forall k string :: !has(opts.opts.activeFields.fields, k)
-//@ at-call reifyMergeValue requires opts.opts != nil && opts.opts.activeFields != nil && forall k string :: !has(opts.opts.activeFields.fields, k)
+//@ at-call reifyValue requires opts.opts != nil && opts.opts.activeFields != nil && opts.opts.activeFields.parent == atentry(opts.opts.activeFields) && forall k string :: !has(opts.opts.activeFields.fields, k)
+//@ at-call reifyMergeValue requires opts.opts != nil && opts.opts.activeFields != nil && opts.opts.activeFields.parent == atentry(opts.opts.activeFields) && forall k string :: !has(opts.opts.activeFields.fields, k)
 //@ modifies *
 //@ ensures [scope @C08] opts.activeFields == old(opts.activeFields)
 //@ ensures [validated @C04] err == nil ==> recValidW(to, validators)
@@ -1549,7 +1553,7 @@ package ucfg
 //@ props C08
 //@ norte
 //@ requires opts != nil && c.c != nil && c.c.fields != nil
-//@ at-call iface:value.reify requires opts != nil && opts.activeFields != nil && forall k string :: !has(opts.activeFields.fields, k)
+//@ at-call iface:value.reify requires opts != nil && opts.activeFields != nil && opts.activeFields.parent == atentry(opts.activeFields) && forall k string :: !has(opts.activeFields.fields, k)
 //@ modifies *
 //@ ensures [scope] opts.activeFields == old(opts.activeFields)
 
@@ -1718,7 +1722,7 @@ package ucfg
 //@ func Env$1
 //@ props C02
 //@ requires o != nil
-//@ modifies o.env
+//@ modifies o.env, elems(o.env)
 //@ ensures [appended] len(o.env) == len(old(o.env)) + 1 && o.env[len(old(o.env))] == deref(e)
 //@ ensures [prefix] forall j int :: 0 <= j && j < len(old(o.env)) ==> o.env[j] == old(o.env[j])
 
@@ -1955,7 +1959,7 @@ package ucfg
 //@ sweep
 //@ checks-pre raiseValidation reifyDoArray$1 reifyMergeValue
 //@ requires opts.opts != nil
-//@ at-call reifyMergeValue requires opts.opts != nil && opts.opts.activeFields != nil && forall k string :: !has(opts.opts.activeFields.fields, k)
+//@ at-call reifyMergeValue requires opts.opts != nil && opts.opts.activeFields != nil && opts.opts.activeFields.parent == atentry(opts.opts.activeFields) && forall k string :: !has(opts.opts.activeFields.fields, k)
 //@ ensures [scope @C08] opts.opts.activeFields == old(opts.opts.activeFields)
 //@ requires rvKind(to) == 17 || rvKind(to) == 23
 //@ requires rvKind(to) == 17 ==> rvCanSet(to)
@@ -2032,7 +2036,7 @@ package ucfg
 //@ ensures [field_of_struct] err == nil && !skip ==> info.value == rvField(structVal, fieldIdx) && rvRootOf(info.value) == rvRootOf(structVal)
 //@ ensures [key @C13,C07,C06] err == nil && !skip ==> isKeyOf(info.name, rtField(rvType(structVal), fieldIdx), old(opts.tag))
 //@ ensures [caller_options_kept] opts.configValueHandling == old(opts.configValueHandling)
-//@ ensures [scope_kept] err == nil && !skip && old(opts.activeFields) != nil ==> info.options != nil && info.options.activeFields == old(opts.activeFields) && forall k string :: has(info.options.activeFields.fields, k) == old(has(opts.activeFields.fields, k))
+//@ ensures [scope_kept] err == nil && !skip && old(opts.activeFields) != nil ==> info.options != nil && info.options.activeFields == old(opts.activeFields) && info.options.activeFields.parent == old(opts.activeFields.parent) && forall k string :: has(info.options.activeFields.fields, k) == old(has(opts.activeFields.fields, k))
 //@ ensures [settable !unproved] err == nil && !skip && rvCanSet(structVal) ==> rvCanSet(info.value)
 //@ ensures [policy_from_tag] err == nil && !skip && info.tagOptions.cfgHandling != cfgDefaultHandling ==> info.options.configValueHandling == info.tagOptions.cfgHandling
 //@ ensures [policy_inherited] err == nil && !skip && info.tagOptions.cfgHandling == cfgDefaultHandling ==> info.options.configValueHandling == old(opts.configValueHandling)
@@ -2065,9 +2069,9 @@ package ucfg
 //@ props C13 C07 C08
 //@ sweep
 //@ checks-pre accessField chaseTypePointers raiseInlineNeedsObject raiseValidation reifyGetField reifyMergeValue
-//@ at-call reifyGetField requires opts.opts != nil && opts.opts.activeFields != nil && forall k string :: !has(opts.opts.activeFields.fields, k)
-//@ at-call reifyInto requires opts != nil && opts.activeFields != nil && forall k string :: !has(opts.activeFields.fields, k)
-//@ at-call reifyMergeValue requires opts.opts != nil && opts.opts.activeFields != nil && forall k string :: !has(opts.opts.activeFields.fields, k)
+//@ at-call reifyGetField requires opts.opts != nil && opts.opts.activeFields != nil && opts.opts.activeFields.parent == atentry(caller(opts).activeFields) && forall k string :: !has(opts.opts.activeFields.fields, k)
+//@ at-call reifyInto requires opts != nil && opts.activeFields != nil && opts.activeFields.parent == atentry(caller(opts).activeFields) && forall k string :: !has(opts.activeFields.fields, k)
+//@ at-call reifyMergeValue requires opts.opts != nil && opts.opts.activeFields != nil && opts.opts.activeFields.parent == atentry(caller(opts).activeFields) && forall k string :: !has(opts.opts.activeFields.fields, k)
 //@ requires opts != nil && cfg != nil
 //@ requires rtKind(chasedT(rvType(chasedP(orig)))) == 25
 //@ requires rvCanSet(chasedP(orig))
@@ -2361,6 +2365,7 @@ package ucfg
 //@ nonil
 //@ pure
 //@ rvwrites nothing
+//@ loop 1 invariant tags == nil || fresh(base(tags))
 
 // ---------------------------------------------------------------- C13: settings absent from the configuration
 //@ ghost func pathFor(in string, opts *options) cfgPath
@@ -2451,7 +2456,7 @@ package ucfg
 //@ requires c != nil && c.fields != nil && opts != nil
 //@ modifies opts.activeFields
 //@ at-call (*Config).FlattenedKeys requires false
-//@ at-call iface:value.toConfig requires opts != nil && opts.activeFields != nil && forall k string :: !has(opts.activeFields.fields, k)
+//@ at-call iface:value.toConfig requires opts != nil && opts.activeFields != nil && opts.activeFields.parent == atentry(opts.activeFields) && forall k string :: !has(opts.activeFields.fields, k)
 //@ at-call (*Config).flattenedKeys requires opts == entry(opts)
 //@ at-call iface:value.Context requires cfgEval(self) == nil
 //@ ensures [fresh_result] keys == nil || fresh(base(keys))
@@ -2559,7 +2564,7 @@ package ucfg
 //@ sweep
 //@ checks-pre (*splice).eval$1
 //@ requires s != nil && opts != nil
-//@ at-call iface:varEvaler.eval requires opts != nil && opts.activeFields != nil && forall k string :: !has(opts.activeFields.fields, k)
+//@ at-call iface:varEvaler.eval requires opts != nil && opts.activeFields != nil && opts.activeFields.parent == atentry(opts.activeFields) && forall k string :: !has(opts.activeFields.fields, k)
 //@ ensures [scope] opts.activeFields == old(opts.activeFields)
 
 //@ func (*splice).eval$1
